@@ -64,9 +64,10 @@ type gcase struct {
 	// noser: the serializer is known to refuse this valid combination (used only to keep such
 	// keys out of the keyset stream; the refusal itself is reported as UNSERIALIZABLE).
 	noser string
-	// docUnserKey / docUnserParams: the two documented classes for which a serializer ERROR is only
-	// counted, not reported: AES-GCM with IV size != 12 or tag size != 16 (key and parameters), and
-	// JWT parameters with the CustomKID strategy (parameters only).
+	// docUnserKey / docUnserParams: the three documented classes for which an explicit serializer
+	// ERROR is only counted, not reported: AES-GCM with IV size != 12 or tag size != 16 (key and
+	// parameters), JWT parameters with the CustomKID strategy (parameters only), and RSA-SSA-PSS
+	// keys with salt length 0 (keys only; the salt-0 behaviour itself is a recorded C03 finding).
 	docUnserKey    string
 	docUnserParams string
 	// noKeyset: leave out of the keyset stream (no primitive, too slow, or lossy).
@@ -652,6 +653,7 @@ func gridRSAPSS() (out []gcase) {
 					}
 					if salt == 0 {
 						c.noser = "RsaSsaPss: salt length 0 is refused by the serializer (\"salt length zero cannot be serialized\")"
+						c.docUnserKey = "rsa-ssa-pss-salt-length-0"
 						c.noKeyset = true
 					}
 					out = append(out, c)
